@@ -54,6 +54,10 @@ type facts struct {
 	DepFPSources      []string          `json:"dep_fingerprint_sources"`
 	DepVersionShort   bool              `json:"dep_version_shortcut"`
 	DepsSorted        bool              `json:"deps_sorted"`
+	ClFileReturns     int               `json:"clfile_early_returns"`
+	ClFileCompiles    int               `json:"clfile_compile_calls"`
+	ModuleVersionSrc  string            `json:"module_version_src"`
+	DepVersionGuard   string            `json:"dep_version_guard"`
 	ManifestYAMLKeys  map[string]string `json:"manifest_yaml_keys"`
 	CompilerHashStat  []string          `json:"compilerhash_inputs"`
 	Errors            []string          `json:"errors"`
@@ -501,6 +505,49 @@ func main() {
 				if c := chain(x.Fun); len(c) == 2 && c[1] == "collectFingerprint" {
 					f.DepFPRecursive = true
 				}
+			}
+			return true
+		})
+	}
+	// clFile: a C side file is compiled on every call (no shortcut that reuses an object left by an earlier build)
+	if fd := bf["clFile"]; fd != nil {
+		ast.Inspect(fd.Body, func(n ast.Node) bool {
+			switch x := n.(type) {
+			case *ast.FuncLit:
+				return false
+			case *ast.ReturnStmt:
+				f.ClFileReturns++
+			case *ast.CallExpr:
+				if c := chain(x.Fun); len(c) == 2 && c[1] == "Compile" {
+					f.ClFileCompiles++
+				}
+			}
+			return true
+		})
+	} else {
+		f.Errors = append(f.Errors, "clFile not found")
+	}
+	// moduleVersion: its source text (the module type renamed to a local stand-in) so that
+	// check.py can run the function itself on the module shapes of the model
+	if fd := cf["moduleVersion"]; fd != nil {
+		var sb strings.Builder
+		printer.Fprint(&sb, fset, fd)
+		src := sb.String()
+		if fd.Type.Params != nil && len(fd.Type.Params.List) == 1 {
+			src = strings.ReplaceAll(src, str(fd.Type.Params.List[0].Type), "*Module")
+		}
+		f.ModuleVersionSrc = src
+	} else {
+		f.Errors = append(f.Errors, "moduleVersion not found")
+	}
+	if fd := cf["dependencyFingerprint"]; fd != nil {
+		ast.Inspect(fd.Body, func(n ast.Node) bool {
+			if is, ok := n.(*ast.IfStmt); ok && is.Init != nil && strings.Contains(str(is.Init), "moduleVersion(") {
+				body := ""
+				if len(is.Body.List) > 0 {
+					body = str(is.Body)
+				}
+				f.DepVersionGuard = str(is.Init) + "; " + str(is.Cond) + " " + body
 			}
 			return true
 		})
